@@ -1,3 +1,647 @@
 package main
 
-func ruleGoroutines(w *World, r *Report, rule string) {}
+import (
+	"fmt"
+	"go/token"
+	"go/types"
+	"sort"
+	"strings"
+
+	"golang.org/x/tools/go/ssa"
+)
+
+func init() {
+	register(&propertyDef{
+		ID: "C17",
+		Explanation: "Decides race-freedom structurally: an effects analysis (write summaries per function: through which parameters, or to globals/unknown memory, a function may write, propagated bottom-up over the call graph) shows that Fetch, FetchFromArchive and GetAllRawUnsortedPoints write nothing reachable from their (shared) receiver, and that no HTTP handler writes anything reachable from the shared *app or any package variable; the page cache's exported methods take its mutex first and release it by defer, unexported ones are reached only from those; " +
+			"goroutine bodies started with errgroup write only captured variables that no sibling touches, bodies started in a loop write only elements indexed by a per-iteration copy of the loop variable, results are collected by index (not by append under a lock, which would make the order schedule-dependent), and the parent touches them only after Wait; package variables are written only during initialisation. " +
+			"Not decided: equality of concurrent and sequential results as such (follows from the absence of shared writes under the trusted base).",
+		Run: rulesC17,
+	})
+}
+
+// ---------- E-effects ----------
+
+type rootKind int
+
+const (
+	rkFresh rootKind = iota
+	rkParam
+	rkGlobal
+	rkUnknown
+)
+
+type memRoot struct {
+	kind  rootKind
+	param int
+	name  string
+}
+
+type effects struct {
+	w          *World
+	writesP    map[*ssa.Function]map[int]string // param index -> witness
+	writesG    map[*ssa.Function]string         // non-empty: writes global/unknown memory (witness)
+	inProgress map[*ssa.Function]bool
+	done       map[*ssa.Function]bool
+}
+
+func newEffects(w *World) *effects {
+	return &effects{w: w, writesP: map[*ssa.Function]map[int]string{}, writesG: map[*ssa.Function]string{}, inProgress: map[*ssa.Function]bool{}, done: map[*ssa.Function]bool{}}
+}
+
+// rootsOf: which memory regions may address/pointer v point into.
+func (e *effects) rootsOf(v ssa.Value, seen map[ssa.Value]bool) []memRoot {
+	if v == nil || seen[v] {
+		return nil
+	}
+	seen[v] = true
+	switch x := v.(type) {
+	case *ssa.Alloc, *ssa.MakeSlice, *ssa.MakeMap, *ssa.MakeChan, *ssa.MakeInterface, *ssa.MakeClosure:
+		if mi, ok := v.(*ssa.MakeInterface); ok {
+			return e.rootsOf(mi.X, seen)
+		}
+		return []memRoot{{kind: rkFresh}}
+	case *ssa.Const:
+		return []memRoot{{kind: rkFresh}}
+	case *ssa.Parameter:
+		f := x.Parent()
+		for i, p := range f.Params {
+			if p == x {
+				return []memRoot{{kind: rkParam, param: i}}
+			}
+		}
+	case *ssa.FreeVar:
+		// captured variable of the enclosing function: shared with the parent and siblings
+		return []memRoot{{kind: rkUnknown, name: "captured variable " + x.Name()}}
+	case *ssa.Global:
+		return []memRoot{{kind: rkGlobal, name: x.Pkg.Pkg.Name() + "." + x.Name()}}
+	case *ssa.FieldAddr:
+		return e.rootsOf(x.X, seen)
+	case *ssa.IndexAddr:
+		return e.rootsOf(x.X, seen)
+	case *ssa.Field:
+		return e.rootsOf(x.X, seen)
+	case *ssa.Index:
+		return e.rootsOf(x.X, seen)
+	case *ssa.Slice:
+		return e.rootsOf(x.X, seen)
+	case *ssa.ChangeType:
+		return e.rootsOf(x.X, seen)
+	case *ssa.Convert:
+		return e.rootsOf(x.X, seen)
+	case *ssa.ChangeInterface:
+		return e.rootsOf(x.X, seen)
+	case *ssa.TypeAssert:
+		return e.rootsOf(x.X, seen)
+	case *ssa.Extract:
+		return e.rootsOf(x.Tuple, seen)
+	case *ssa.Phi:
+		var out []memRoot
+		for _, ed := range x.Edges {
+			out = append(out, e.rootsOf(ed, seen)...)
+		}
+		return out
+	case *ssa.UnOp:
+		if x.Op == token.MUL {
+			// a pointer/slice loaded from memory: it points into whatever that memory's owner can reach
+			if !pointerLike(x.Type()) {
+				return []memRoot{{kind: rkFresh}}
+			}
+			if al, ok := x.X.(*ssa.Alloc); ok {
+				// local variable: union of what was stored
+				var out []memRoot
+				for _, st := range storesTo(al) {
+					out = append(out, e.rootsOf(st.Val, seen)...)
+				}
+				if len(out) == 0 {
+					out = []memRoot{{kind: rkFresh}}
+				}
+				return out
+			}
+			return e.rootsOf(x.X, seen)
+		}
+		return []memRoot{{kind: rkFresh}}
+	case *ssa.Call:
+		// result of a call: fresh for allocators and module functions returning fresh memory; otherwise reachable from its arguments
+		if bi, ok := x.Common().Value.(*ssa.Builtin); ok {
+			if bi.Name() == "append" {
+				return e.rootsOf(x.Common().Args[0], seen)
+			}
+			return []memRoot{{kind: rkFresh}}
+		}
+		var out []memRoot
+		sc := x.Common().StaticCallee()
+		if sc != nil && e.w.inModuleOrFB(sc) {
+			// returns memory reachable from its pointer-like arguments, or fresh
+			for _, rt := range returnsOf(sc) {
+				for _, res := range rt.Results {
+					if !pointerLike(res.Type()) {
+						continue
+					}
+					for _, rr := range e.rootsOf(res, map[ssa.Value]bool{}) {
+						switch rr.kind {
+						case rkParam:
+							if rr.param < len(x.Common().Args) {
+								out = append(out, e.rootsOf(x.Common().Args[rr.param], seen)...)
+							}
+						default:
+							out = append(out, rr)
+						}
+					}
+				}
+			}
+			if len(out) == 0 {
+				out = []memRoot{{kind: rkFresh}}
+			}
+			return out
+		}
+		for _, a := range x.Common().Args {
+			if pointerLike(a.Type()) {
+				out = append(out, e.rootsOf(a, seen)...)
+			}
+		}
+		if x.Common().IsInvoke() {
+			out = append(out, e.rootsOf(x.Common().Value, seen)...)
+		}
+		if len(out) == 0 {
+			out = []memRoot{{kind: rkFresh}}
+		}
+		return out
+	case *ssa.Lookup, *ssa.Next, *ssa.Range:
+		return []memRoot{{kind: rkFresh}}
+	case *ssa.BinOp:
+		return []memRoot{{kind: rkFresh}}
+	case *ssa.Function, *ssa.Builtin:
+		return []memRoot{{kind: rkFresh}}
+	}
+	return []memRoot{{kind: rkUnknown, name: fmt.Sprintf("%T", v)}}
+}
+
+func pointerLike(t types.Type) bool {
+	switch u := t.Underlying().(type) {
+	case *types.Pointer, *types.Slice, *types.Map, *types.Chan, *types.Interface, *types.Signature:
+		return true
+	case *types.Struct:
+		for i := 0; i < u.NumFields(); i++ {
+			if pointerLike(u.Field(i).Type()) {
+				return true
+			}
+		}
+	case *types.Tuple:
+		for i := 0; i < u.Len(); i++ {
+			if pointerLike(u.At(i).Type()) {
+				return true
+			}
+		}
+	}
+	return false
+}
+
+func (e *effects) note(f *ssa.Function, roots []memRoot, witness string) {
+	for _, rt := range roots {
+		switch rt.kind {
+		case rkParam:
+			if e.writesP[f] == nil {
+				e.writesP[f] = map[int]string{}
+			}
+			if _, ok := e.writesP[f][rt.param]; !ok {
+				e.writesP[f][rt.param] = witness
+			}
+		case rkGlobal, rkUnknown:
+			if e.writesG[f] == "" {
+				e.writesG[f] = witness + " (" + rt.name + ")"
+			}
+		}
+	}
+}
+
+// std functions that write through their pointer/slice arguments (index of args written); everything else in std is treated as not writing caller-visible memory.
+func stdWrites(sc *ssa.Function) []int {
+	p := pkgOf(sc)
+	if p == nil {
+		return nil
+	}
+	path := p.Pkg.Path()
+	switch {
+	case path == "encoding/binary" && strings.HasPrefix(sc.Name(), "Put"):
+		return []int{1}
+	case path == "sort":
+		return []int{0}
+	case path == "io/ioutil" || path == "io":
+		return nil
+	case path == "math/rand" && sc.Signature.Recv() != nil:
+		return []int{0}
+	case path == "strings" && isMethodFunc(sc, "strings", "Builder", sc.Name()):
+		return []int{0}
+	case path == "bufio" || path == "bytes":
+		if sc.Signature.Recv() != nil {
+			return []int{0}
+		}
+	case path == "flag" && sc.Signature.Recv() != nil:
+		return []int{0}
+	case path == "sync" || path == "golang.org/x/sync/errgroup":
+		return nil // synchronisation objects: their own discipline
+	case path == "net/http" && sc.Signature.Recv() != nil:
+		return []int{0}
+	case path == "os" && sc.Signature.Recv() != nil && (sc.Name() == "Read" || sc.Name() == "ReadAt"):
+		return []int{1}
+	}
+	return nil
+}
+
+func (e *effects) analyze(f *ssa.Function) {
+	if e.done[f] || e.inProgress[f] || len(f.Blocks) == 0 {
+		return
+	}
+	e.inProgress[f] = true
+	defer func() { delete(e.inProgress, f); e.done[f] = true }()
+	eachInstr(f, func(in ssa.Instruction) {
+		switch x := in.(type) {
+		case *ssa.Store:
+			if _, isAlloc := x.Addr.(*ssa.Alloc); isAlloc {
+				return
+			}
+			e.note(f, e.rootsOf(x.Addr, map[ssa.Value]bool{}), "store at "+e.w.instrPos(x))
+		case *ssa.MapUpdate:
+			e.note(f, e.rootsOf(x.Map, map[ssa.Value]bool{}), "map update at "+e.w.instrPos(x))
+		case *ssa.Send:
+			e.note(f, e.rootsOf(x.Chan, map[ssa.Value]bool{}), "channel send at "+e.w.instrPos(x))
+		case ssa.CallInstruction:
+			cc := x.Common()
+			if bi, ok := cc.Value.(*ssa.Builtin); ok {
+				if bi.Name() == "copy" || bi.Name() == "delete" || bi.Name() == "clear" {
+					e.note(f, e.rootsOf(cc.Args[0], map[ssa.Value]bool{}), bi.Name()+" at "+e.w.instrPos(x))
+				}
+				if bi.Name() == "append" {
+					// may write into the backing array of arg 0 when capacity allows
+					e.note(f, e.rootsOf(cc.Args[0], map[ssa.Value]bool{}), "append at "+e.w.instrPos(x))
+				}
+				return
+			}
+			callees := e.w.calleesOfCall(x)
+			if len(callees) == 0 {
+				// unresolved dynamic call (function value): assume it may write through its pointer arguments
+				for _, a := range cc.Args {
+					if pointerLike(a.Type()) {
+						e.note(f, e.rootsOf(a, map[ssa.Value]bool{}), "dynamic call at "+e.w.instrPos(x))
+					}
+				}
+				return
+			}
+			for _, g := range callees {
+				if e.w.inModule(g) {
+					e.analyze(g)
+					args := cc.Args
+					if cc.IsInvoke() {
+						args = append([]ssa.Value{cc.Value}, cc.Args...)
+					}
+					for pi, wit := range e.writesP[g] {
+						if pi < len(args) {
+							e.note(f, e.rootsOf(args[pi], map[ssa.Value]bool{}), "via "+funcName(g)+": "+wit)
+						}
+					}
+					if wg := e.writesG[g]; wg != "" && e.writesG[f] == "" {
+						e.writesG[f] = "via " + funcName(g) + ": " + wg
+					}
+					// closures write through their captured variables: attribute to the creator
+					continue
+				}
+				if pkgOf(g) == e.w.FB {
+					// the page cache serialises itself (rule C17.R2); ReadAt writes its destination slice
+					if g.Name() == "ReadAt" && len(cc.Args) > 1 {
+						e.note(f, e.rootsOf(cc.Args[1], map[ssa.Value]bool{}), "FileBuffer.ReadAt into its destination at "+e.w.instrPos(x))
+					}
+					continue
+				}
+				for _, pi := range stdWrites(g) {
+					args := cc.Args
+					if pi < len(args) {
+						e.note(f, e.rootsOf(args[pi], map[ssa.Value]bool{}), funcName(g)+" at "+e.w.instrPos(x))
+					}
+				}
+			}
+		}
+	})
+	// closures created here: their writes to captured variables are writes of f to its own locals (fresh) unless the captured thing is param-derived
+	for _, af := range f.AnonFuncs {
+		e.analyze(af)
+	}
+}
+
+// ---------- rules ----------
+
+func rulesC17(w *World, r *Report) {
+	e := newEffects(w)
+	r.Rule("C17.R1", "effects: the read-path roots Whisper.Fetch, FetchFromArchive, GetAllRawUnsortedPoints (and everything they call in the module) write nothing reachable from their receiver and no global/unknown memory", 3)
+	for _, name := range []string{"Whisper.Fetch", "Whisper.FetchFromArchive", "Whisper.GetAllRawUnsortedPoints"} {
+		f := fn(w.Lib, name)
+		if f == nil {
+			r.Undecided("C17.R1", name, "-", "read-path root not found")
+			continue
+		}
+		e.analyze(f)
+		if wit, bad := e.writesP[f][0]; bad {
+			r.Violate("C17.R1", name+":writes-receiver", w.pos(f.Pos()), "the read path writes memory reachable from the shared handle: "+wit+" — concurrent fetches on one handle race")
+		} else if wg := e.writesG[f]; wg != "" {
+			r.Violate("C17.R1", name+":writes-global", w.pos(f.Pos()), "the read path writes shared memory: "+wg)
+		} else {
+			r.OK("C17.R1", name, w.pos(f.Pos()), "writes only memory allocated by the call itself")
+		}
+	}
+
+	r.Rule("C17.R2", "lockset (dependency): every exported FileBuffer method locks b.mu first and defers the unlock before touching any other field; unexported methods that touch fields are called only from FileBuffer methods", 4)
+	fbType := w.FB.Type("FileBuffer")
+	if fbType == nil {
+		r.Undecided("C17.R2", "FileBuffer", "-", "type not found")
+	} else {
+		ms := w.Prog.MethodSets.MethodSet(types.NewPointer(fbType.Type()))
+		var methods []*ssa.Function
+		for i := 0; i < ms.Len(); i++ {
+			if m := w.Prog.MethodValue(ms.At(i)); m != nil && len(m.Blocks) > 0 {
+				methods = append(methods, m)
+			}
+		}
+		isMethod := map[*ssa.Function]bool{}
+		for _, m := range methods {
+			isMethod[m] = true
+		}
+		for _, m := range methods {
+			exported := token.IsExported(m.Name())
+			key := "FileBuffer." + m.Name()
+			if exported {
+				// entry block: Lock call, then Defer Unlock, before any FieldAddr other than mu
+				okLock, okDefer, early := false, false, ""
+				for _, in := range m.Blocks[0].Instrs {
+					switch x := in.(type) {
+					case *ssa.Call:
+						if isMethodCall(x, "sync", "Mutex", "Lock") && !okLock {
+							okLock = true
+							continue
+						}
+					case *ssa.Defer:
+						if isMethodCall(x, "sync", "Mutex", "Unlock") && okLock {
+							okDefer = true
+							continue
+						}
+					case *ssa.FieldAddr:
+						_, fname, _ := fieldAddrOf(x)
+						if fname != "mu" && !(okLock && okDefer) && early == "" {
+							early = fname
+						}
+					}
+					if okLock && okDefer {
+						break
+					}
+				}
+				r.Check(okLock && okDefer && early == "", "C17.R2", key, w.pos(m.Pos()), "mu.Lock(); defer mu.Unlock() first", "exported FileBuffer method does not take the mutex (Lock + deferred Unlock) before touching field "+early+": concurrent page reads race")
+			} else {
+				bad := ""
+				for _, ed := range w.callers(m) {
+					if !isMethod[ed.Caller.Func] {
+						bad = funcName(ed.Caller.Func)
+					}
+				}
+				r.Check(bad == "", "C17.R2", key, w.pos(m.Pos()), "reached only from (lock-holding) FileBuffer methods", "unexported FileBuffer method is called from "+bad+" outside the lock discipline")
+			}
+		}
+	}
+
+	ruleGoroutines(w, r, "C17.R3")
+
+	r.Rule("C17.R4", "effects: no HTTP handler writes memory reachable from the shared *app receiver or any global/unknown memory (per-request objects w and r may be written)", 5)
+	for _, h := range httpHandlers(w) {
+		e.analyze(h)
+		key := funcName(h)
+		if wit, bad := e.writesP[h][0]; bad && h.Signature.Recv() != nil {
+			r.Violate("C17.R4", key+":writes-app", w.pos(h.Pos()), "the handler writes state shared by all requests: "+wit)
+		} else if wg := e.writesG[h]; wg != "" {
+			r.Violate("C17.R4", key+":writes-global", w.pos(h.Pos()), "the handler writes shared memory: "+wg)
+		} else {
+			r.OK("C17.R4", key, w.pos(h.Pos()), "stateless: writes only per-request and freshly allocated memory")
+		}
+	}
+
+	r.Rule("C17.R5", "package variables of the module are stored only by package initialisers, main.run/runSubcommand (start-up) — never on a read, command or handler path", 1)
+	n := 0
+	for _, f := range w.modFuncs {
+		eachInstr(f, func(in ssa.Instruction) {
+			st, ok := in.(*ssa.Store)
+			if !ok {
+				return
+			}
+			g, ok := st.Addr.(*ssa.Global)
+			if !ok {
+				return
+			}
+			n++
+			okSite := f.Name() == "init" || strings.HasPrefix(f.Name(), "init#") || funcName(f) == "main.run" || funcName(f) == "main.runSubcommand" || (f.Parent() != nil && (funcName(f.Parent()) == "main.run"))
+			r.Check(okSite, "C17.R5", "global-store:"+g.Name()+"@"+funcName(f), w.instrPos(st), "initialisation-time store", "package variable "+g.Pkg.Pkg.Name()+"."+g.Name()+" is written at run time in "+funcName(f)+": concurrent requests/fetches race on it")
+		})
+	}
+	if n == 0 {
+		r.OKTrivial("C17.R5", "global-stores", "-", "no stores to package variables")
+	}
+}
+
+// ruleGoroutines: C17.R3
+func ruleGoroutines(w *World, r *Report, rule string) {
+	r.Rule(rule, "goroutine bodies passed to (*errgroup.Group).Go: the captured variables a body writes are written/read by no sibling body; a body created inside a loop writes only elements captured[idx] where idx is a per-iteration copy of the loop variable (never the variable itself, an append, or a map); the parent uses written variables only after Wait()", 9)
+	for _, f := range cmdFuncs(w) {
+		type lit struct {
+			fn     *ssa.Function
+			mc     *ssa.MakeClosure
+			goCall ssa.CallInstruction
+			inLoop bool
+			writes map[*ssa.Alloc]string // captured alloc -> how ("var", "elem")
+			reads  map[*ssa.Alloc]bool
+		}
+		var lits []*lit
+		var wait ssa.CallInstruction
+		for _, c := range callsIn(f) {
+			if isMethodCall(c, "golang.org/x/sync/errgroup", "Group", "Wait") {
+				wait = c
+			}
+			if !isMethodCall(c, "golang.org/x/sync/errgroup", "Group", "Go") {
+				continue
+			}
+			mc, ok := c.Common().Args[1].(*ssa.MakeClosure)
+			if !ok {
+				r.Undecided(rule, funcName(f)+":go-arg", w.instrPos(c), "errgroup.Go is not given a function literal")
+				continue
+			}
+			l := &lit{fn: mc.Fn.(*ssa.Function), mc: mc, goCall: c, inLoop: inLoopWith(c.Block()), writes: map[*ssa.Alloc]string{}, reads: map[*ssa.Alloc]bool{}}
+			lits = append(lits, l)
+		}
+		if len(lits) == 0 {
+			continue
+		}
+		for _, l := range lits {
+			bind := map[*ssa.FreeVar]*ssa.Alloc{}
+			for i, fv := range l.fn.FreeVars {
+				if al, ok := l.mc.Bindings[i].(*ssa.Alloc); ok {
+					bind[fv] = al
+				}
+			}
+			key := funcName(l.fn)
+			bad := ""
+			eachInstr(l.fn, func(in ssa.Instruction) {
+				switch x := in.(type) {
+				case *ssa.Store:
+					switch a := x.Addr.(type) {
+					case *ssa.FreeVar:
+						if al := bind[a]; al != nil {
+							l.writes[al] = "var"
+						}
+					case *ssa.IndexAddr:
+						// captured[idx] = ...
+						if ld, ok := a.X.(*ssa.UnOp); ok && ld.Op == token.MUL {
+							if fv, ok := ld.X.(*ssa.FreeVar); ok && bind[fv] != nil {
+								l.writes[bind[fv]] = "elem"
+								// idx must be a load of a captured per-iteration variable
+								okIdx := false
+								if il, ok := a.Index.(*ssa.UnOp); ok && il.Op == token.MUL {
+									if ifv, ok := il.X.(*ssa.FreeVar); ok && bind[ifv] != nil {
+										ia := bind[ifv]
+										// allocated inside the loop body (per iteration) and stored once
+										if inLoopWith(ia.Block()) && len(storesTo(ia)) == 1 {
+											okIdx = true
+										}
+									}
+								}
+								if !okIdx && l.inLoop {
+									bad = "an element write whose index is not a per-iteration copy of the loop variable at " + w.instrPos(x)
+								}
+							}
+						}
+					case *ssa.FieldAddr:
+						if ld, ok := a.X.(*ssa.UnOp); ok {
+							if fv, ok := ld.X.(*ssa.FreeVar); ok && bind[fv] != nil {
+								l.writes[bind[fv]] = "var"
+							}
+						}
+					}
+				case *ssa.UnOp:
+					if x.Op == token.MUL {
+						if fv, ok := x.X.(*ssa.FreeVar); ok && bind[fv] != nil {
+							l.reads[bind[fv]] = true
+						}
+					}
+				case *ssa.MapUpdate:
+					if ld, ok := x.Map.(*ssa.UnOp); ok {
+						if fv, ok := ld.X.(*ssa.FreeVar); ok && bind[fv] != nil {
+							l.writes[bind[fv]] = "map"
+						}
+					}
+				}
+			})
+			if l.inLoop {
+				for al, how := range l.writes {
+					if how != "elem" && bad == "" {
+						bad = "the captured variable " + al.Comment + " itself is written (" + how + ") by a body started once per loop iteration: all iterations share it (results depend on the schedule)"
+					}
+				}
+				// the loop variable itself must not be captured: every captured int alloc must be per-iteration
+			}
+			if bad != "" {
+				r.Violate(rule, key+":loop-body", w.pos(l.fn.Pos()), "goroutine body started in a loop performs "+bad)
+			} else if l.inLoop {
+				r.OK(rule, key+":loop-body", w.pos(l.fn.Pos()), "writes only elements indexed by its per-iteration index")
+			}
+		}
+		// sibling disjointness (bodies started at distinct sites)
+		for i, a := range lits {
+			for j, b := range lits {
+				if i >= j {
+					continue
+				}
+				conflict := ""
+				for al := range a.writes {
+					if _, w2 := b.writes[al]; w2 || b.reads[al] {
+						conflict = al.Comment
+					}
+				}
+				for al := range b.writes {
+					if a.reads[al] {
+						conflict = al.Comment
+					}
+				}
+				key := funcName(a.fn) + "|" + funcName(b.fn)
+				r.Check(conflict == "", rule, key+":disjoint", w.pos(a.fn.Pos()), "sibling goroutines touch disjoint captured variables", "sibling goroutines both access captured variable "+conflict+" and at least one writes it: data race")
+			}
+		}
+		// parent: no access to written variables between Go and Wait
+		if wait == nil {
+			r.Violate(rule, funcName(f)+":wait", w.pos(f.Pos()), "goroutines are started but the group is never waited for")
+			continue
+		}
+		written := map[*ssa.Alloc]bool{}
+		for _, l := range lits {
+			for al := range l.writes {
+				written[al] = true
+			}
+		}
+		badUse := ""
+		for _, l := range lits {
+			// blocks reachable from the Go call without passing the Wait block
+			seen := map[*ssa.BasicBlock]bool{}
+			var q []*ssa.BasicBlock
+			start := l.goCall.Block()
+			q = append(q, start)
+			first := true
+			for len(q) > 0 {
+				b := q[0]
+				q = q[1:]
+				if seen[b] && !(first) {
+					continue
+				}
+				from := 0
+				if first {
+					for i, in := range b.Instrs {
+						if in == l.goCall.(ssa.Instruction) {
+							from = i + 1
+						}
+					}
+					first = false
+				}
+				seen[b] = true
+				stop := false
+				for _, in := range b.Instrs[from:] {
+					if in == wait.(ssa.Instruction) {
+						stop = true
+						break
+					}
+					switch x := in.(type) {
+					case *ssa.UnOp:
+						if al, ok := x.X.(*ssa.Alloc); ok && x.Op == token.MUL && written[al] {
+							// loading the slice header to index it is how the body gets it; a parent read of elements is what matters:
+							if refs := x.Referrers(); refs != nil {
+								for _, ref := range *refs {
+									if _, isClosure := ref.(*ssa.MakeClosure); !isClosure {
+										badUse = al.Comment + " read at " + w.instrPos(x)
+									}
+								}
+							}
+						}
+					case *ssa.Store:
+						if al, ok := x.Addr.(*ssa.Alloc); ok && written[al] {
+							// per-iteration re-initialisation of loop-local copies is fine; a write to a result variable is not
+							if !inLoopWith(al.Block()) {
+								badUse = al.Comment + " written at " + w.instrPos(x)
+							}
+						}
+					}
+				}
+				if !stop {
+					for _, s := range b.Succs {
+						if !seen[s] {
+							q = append(q, s)
+						}
+					}
+				}
+			}
+		}
+		r.Check(badUse == "", rule, funcName(f)+":parent-after-wait", w.instrPos(wait), "the parent touches goroutine results only after Wait()", "the parent accesses a variable written by a goroutine before Wait(): "+badUse)
+	}
+}
+
+var _ = sort.Strings
